@@ -130,6 +130,7 @@ package nfa
 //@   loop 1: invariant -1 <= rangeindex && rangeindex <= rangelen && rangelen <= 281474976710656
 //@   loop 1: decreases rangelen - rangeindex
 
+//@ uninterpreted spec func btFound(b *BoundedBacktracker, longest bool, h []byte, at int) bool
 //@ func (*BoundedBacktracker).SearchAtWithState
 //@   props C13 C07 C20
 //@   requires wfBT(b) && b.nfa != nil && stampsOK(state) && 0 <= at && at <= len(haystack) && len(haystack) <= 140737488355328
@@ -138,6 +139,10 @@ package nfa
 //@   ensures !result2 ==> result0 == -1 && result1 == -1
 //@   ensures stampsOK(state)
 //@   ensures len(state.Visited) <= b.maxVisitedSize || !result2
+//@   ensures state.Longest == old(state.Longest)
+// ASSUMED: the backtracker decides the reference in the state's mode (named by an uninterpreted function; the meta
+// layer links it to the engine's reference)
+//@   trust ensures result2 == btFound(b, old(state.Longest), haystack, at)
 //@   loop 1: invariant at <= startPos && startPos <= len(haystack) + 1 && spanLen == len(haystack) - at
 //@   loop 1: invariant btStateOK(b, state) && state.SpanStart == at && state.InputLen == spanLen
 //@   loop 1: decreases len(haystack) + 1 - startPos
@@ -156,6 +161,7 @@ package nfa
 
 //@ func (*BoundedBacktracker).IsMatchWithState
 //@   props C13 C07
+//@   trust ensures result == btFound(b, old(state.Longest), haystack, 0)
 //@   requires wfBT(b) && b.nfa != nil && stampsOK(state) && len(haystack) <= 140737488355328
 //@   modifies state.*, state.Visited[*]
 //@   ensures stampsOK(state)
@@ -464,3 +470,13 @@ package nfa
 //@   ensures result != nil ==> 1 <= len(result.parts) && len(result.parts) <= 8 && (forall k :: 0 <= k && k < len(result.parts) ==> result.parts[k].minMatch == 1 && result.parts[k].maxMatch <= 0)
 //@   loop 1: invariant -1 <= rangeindex && rangeindex < rangelen && rangelen == len(parts) && (forall k :: 0 <= k && k <= rangeindex ==> parts[k].minMatch == 1 && parts[k].maxMatch <= 0)
 //@   loop 1: decreases rangelen - rangeindex
+
+//@ uninterpreted spec func pvFoundAt(p *PikeVM, h []byte, at int) bool
+//@ trusted func (*PikeVM).SearchAt
+//@   requires p != nil
+//@   modifies family H:nfa.PikeVM, family E:nfa.searchThread, family E:int, family E:uint32, family H:internal/sparse.SparseSet
+//@   ensures result2 == pvFoundAt(p, haystack, at)
+//@ trusted func (*PikeVM).IsMatch
+//@   requires p != nil
+//@   modifies family H:nfa.PikeVM, family E:nfa.searchThread, family E:int, family E:uint32, family H:internal/sparse.SparseSet
+//@   ensures result == pvFoundAt(p, haystack, 0)
